@@ -165,4 +165,69 @@ PROPS = {
             "cache content addressing from C07; name decoding from C15",
         ],
     },
+    "C02": {
+        "level": "proof",
+        "suites": ["hist"],
+        "columns": ["verdict", "cmds"],
+        "rule": "histories over the full C01 alphabet generated while running (edit/revert source, edit rules incl. invalid files, build, goal build, clean, goal clean, tamper, delete target, delete cache entry, delete ruler directory or parts, chmod), 260 quick / 4000 thorough, graphs of 1..6 (9) rules with multi-target rules, transitive edges, commands in a mini-language (constant, copy, concatenation with tags from a small pool so equal contents are common, chmod), a quarter with failing rules and missing leaves; corpus cases first. After every op the implementation's verdict, executed script lines, status lines, workspace, cache listing, decoded history files and file-state table are compared with the model (only the columns this property reads). Distinct by hash of the history; non-trivial = contains a successful build." + " Monitor: an independent ledger of (rule identity, source contents) -> outputs flags any command the property forbids, commands run twice, and any command or file modification in a repeated build.",
+        "trusted_base": COMMON_TB,
+        "assumptions": [
+            "PARTIAL: proved: at most once per build, a command runs iff some target could be neither confirmed nor recovered, rebuild only on a cache miss; the history-level form is monitored by the ledger (needs C01's history soundness)",
+            "deterministic commands, fine clock; deleting the ruler directory or history voids the obligation (DESIGN.md 7.3)",
+        ],
+    },
+    "C04": {
+        "level": "proof",
+        "suites": ["hist", "sched"],
+        "columns": ["verdict", "cmds", "files", "hist"],
+        "rule": "histories over the full C01 alphabet generated while running (edit/revert source, edit rules incl. invalid files, build, goal build, clean, goal clean, tamper, delete target, delete cache entry, delete ruler directory or parts, chmod), 260 quick / 4000 thorough, graphs of 1..6 (9) rules with multi-target rules, transitive edges, commands in a mini-language (constant, copy, concatenation with tags from a small pool so equal contents are common, chmod), a quarter with failing rules and missing leaves; corpus cases first. After every op the implementation's verdict, executed script lines, status lines, workspace, cache listing, decoded history files and file-state table are compared with the model (only the columns this property reads). Distinct by hash of the history; non-trivial = contains a successful build." + " Plus schedule exploration of invocations with failing rules and missing leaves (suite sched). Monitors: a dependent of a failed or blocked rule never runs, a missing leaf is reported by name exactly once, failure is reported, next build retries.",
+        "trusted_base": COMMON_TB + ["the scheduler shim for the schedule part"],
+        "assumptions": [
+            "PARTIAL: theorems about the modelled build under the serial schedule (one error per failed thread in join order, cancel propagation, dependents do not run, nothing recorded); all schedules by exploration (C06); 'unaffected rules are brought up to date correctly' is C01, monitored",
+        ],
+    },
+    "C09": {
+        "level": "proof",
+        "suites": ["hist"],
+        "columns": ["files"],
+        "rule": "histories over the full C01 alphabet generated while running (edit/revert source, edit rules incl. invalid files, build, goal build, clean, goal clean, tamper, delete target, delete cache entry, delete ruler directory or parts, chmod), 260 quick / 4000 thorough, graphs of 1..6 (9) rules with multi-target rules, transitive edges, commands in a mini-language (constant, copy, concatenation with tags from a small pool so equal contents are common, chmod), a quarter with failing rules and missing leaves; corpus cases first. After every op the implementation's verdict, executed script lines, status lines, workspace, cache listing, decoded history files and file-state table are compared with the model (only the columns this property reads). Distinct by hash of the history; non-trivial = contains a successful build." + " Monitor: every mutating System call ruler makes outside commands is classified by an independent reachability computation (in-scope target or ruler directory), and every out-of-scope file must keep content, mtime and permissions across the invocation; goals: none and random targets.",
+        "trusted_base": COMMON_TB + ["directories are not modelled (flat path map)"],
+        "assumptions": [
+            "commands write only their own rule's targets (node_confined); no clock assumption",
+            "theorems about coq/Model/Build.v build and clean; tied to the code by the files column and the call-log monitor",
+        ],
+    },
+    "C10": {
+        "level": "proof",
+        "suites": ["c10_clean_build", "real_c10"],
+        "columns": ["verdict", "cmds", "files", "cache"],
+        "rule": "scenarios: generated rule graph (half with pairwise different target contents), sources, optional goal build and edit, full build, optional chmod, clean with a goal "
+                "choice, build with a goal choice; 150 quick / 2000 thorough on the in-memory System compared op by op with the model, and 10 / 120 with the REAL binary and sh "
+                "commands (cat, printf, chmod +x) on the real file system, where files with permission bits, the cache listing and the status lines are compared with the model. "
+                "Monitors: after clean no in-scope target exists and each content is in the cache; after the build every target is back identical with its executable bit; no command "
+                "when the cleaned contents are pairwise different. All cases non-trivial.",
+        "trusted_base": COMMON_TB + ["rename(2) / permission semantics of the real file system as observed", "sh, cat, printf, chmod"],
+        "assumptions": [
+            "PARTIAL: proved: clean leaves no plan target and puts each cleaned file into the cache under its hash; restore moves the cache file (content and permission bits) into place; commands run only on a cache miss. The end-to-end 'up to date before clean => next build succeeds with no command' is checked on every scenario, in memory and on the real file system, not proved as one statement",
+        ],
+    },
+    "C17": {
+        "level": "proof",
+        "suites": ["c17_contradiction"],
+        "columns": ["verdict", "cmds", "files", "hist"],
+        "rule": "rule graphs in which one rule's command reads an undeclared file for a random subset of its targets; history: build, change the undeclared input (1 in 8: leave it), "
+                "force a re-execution (delete a target / tamper with it / clean and delete its cache entry), build. Monitor: exactly one Contradiction naming exactly the targets "
+                "whose fresh output differs from the recorded one, in target order; the rule's history file unchanged; rules that do not depend on it brought up to date. Compared "
+                "op by op with the model. 250 quick / 3000 thorough; all cases non-trivial.",
+        "trusted_base": COMMON_TB,
+        "assumptions": ["theorems about history_insert / handle_rule / build in coq/Model; tied to src/history.rs, src/blob.rs, src/work.rs by suite c17_contradiction"],
+    },
+    "C20": {
+        "level": "proof",
+        "suites": ["hist", "sched"],
+        "columns": ["verdict", "cmds", "status"],
+        "rule": "histories over the full C01 alphabet generated while running (edit/revert source, edit rules incl. invalid files, build, goal build, clean, goal clean, tamper, delete target, delete cache entry, delete ruler directory or parts, chmod), 260 quick / 4000 thorough, graphs of 1..6 (9) rules with multi-target rules, transitive edges, commands in a mini-language (constant, copy, concatenation with tags from a small pool so equal contents are common, chmod), a quarter with failing rules and missing leaves; corpus cases first. After every op the implementation's verdict, executed script lines, status lines, workspace, cache listing, decoded history files and file-state table are compared with the model (only the columns this property reads). Distinct by hash of the history; non-trivial = contains a successful build." + " Plus every explored schedule of suite sched. Monitor: each banner is checked against the rename / command log of the same build (Built iff the rule's command ran, Recovered iff moved in from the cache, Up-to-date iff untouched), exactly one line per target of finished rules, none for blocked rules.",
+        "trusted_base": COMMON_TB + ["the recording Printer of the harness"],
+        "assumptions": ["reading 7.5: Built iff the command ran, else Recovered iff moved in, else Up-to-date", "theorems about status_lines / handle_rule / build in coq/Model; tied to build.rs by the status column"],
+    },
 }
